@@ -93,8 +93,21 @@ def _static_case(draw):
     ).map(lambda t: t[0] + '/'.join(t[1]) + t[2])
     aimed = st.tuples(st.just('aim'), st.integers(0, 40), st.integers(0, 6),
                       st.sampled_from(['', '', '/', '?x=1'])).map(list)
-    paths = draw(st.lists(st.one_of(free, aimed, aimed), min_size=1,
-                          max_size=10))
+    # the site changes while the service runs: a public file is replaced by
+    # a link that leads outside; every earlier request is then repeated
+    swap = st.tuples(st.just('swap'),
+                     st.sampled_from(['a.txt', 'index.html', 'd/index.html',
+                                      'd/b.txt']),
+                     st.integers(0, 1)).map(list)
+    public = st.tuples(
+        st.sampled_from(['/', '//']),
+        st.sampled_from(['a.txt', 'index.html', 'd/index.html', 'd/b.txt',
+                         'd/', 'd', '']),
+    ).map(lambda t: t[0] + t[1])
+    paths = draw(st.one_of(
+        st.lists(st.one_of(free, aimed, aimed), min_size=1, max_size=10),
+        st.lists(st.one_of(free, aimed, public, public, swap), min_size=2,
+                 max_size=10)))
     return {'layout': layout, 'opt': opt, 'paths': paths}
 
 
@@ -231,8 +244,24 @@ def exec_static(case):
             is_pipeline_active=lambda: True)
         res = dawgie.fe.StaticContent()
         isdep = case['opt']['isdep']
-        for p in case['paths']:
+        asked = []
+        todo = list(case['paths'])
+        while todo:
+            p = todo.pop(0)
+            if isinstance(p, list) and p[0] == 'swap':
+                victim = os.path.join((fe, site)[p[2]], p[1])
+                if (secrets and os.path.isfile(victim)
+                        and not os.path.islink(victim)):
+                    os.unlink(victim)
+                    os.symlink(sorted(secrets)[0], victim)
+                    out.label('public-file-replaced-by-link-to-outside')
+                    if asked:
+                        out.label('requests-repeated-after-the-site-changed')
+                    todo = list(asked) + todo
+                    asked = []
+                continue
             path = _aim(p, fe, site, secrets) if isinstance(p, list) else p
+            asked.append(path)
             if _outside_target(path, fe, site):
                 out.nontrivial = True
                 out.label('addresses-file-outside-roots')
@@ -316,6 +345,43 @@ def _hook_name(h):
 
 
 _ENDPOINTS = {}
+_CERT_DIRS = {}
+CLIENTS = ['none', 'stand-in', 'real-valid', 'real-expired',
+           'real-expired+valid']
+
+
+def _cert_dir(kind):
+    '''a directory of dawgie.public.pem* files as security._tls_initialize
+    reads them: self-signed guest certificates, valid (2000-2200) and / or
+    past their validity (2000-2001); made once per process'''
+    if kind in _CERT_DIRS:
+        return _CERT_DIRS[kind]
+    import datetime
+
+    from cryptography import x509
+    from cryptography.hazmat.primitives import hashes, serialization
+    from cryptography.hazmat.primitives.asymmetric import ec
+    from cryptography.x509.oid import NameOID
+
+    if 'key' not in _CERT_DIRS:
+        _CERT_DIRS['key'] = ec.generate_private_key(ec.SECP256R1())
+    key = _CERT_DIRS['key']
+    d = world.fresh_dir('c19certs')
+    want = {'real-valid': [2200], 'real-expired': [2001, 2002],
+            'real-expired+valid': [2001, 2200]}[kind]
+    for n, until in enumerate(want):
+        name = x509.Name([x509.NameAttribute(NameOID.COMMON_NAME,
+                                             f'guest{n}')])
+        cert = (x509.CertificateBuilder().subject_name(name)
+                .issuer_name(name).public_key(key.public_key())
+                .serial_number(1000 + n)
+                .not_valid_before(datetime.datetime(2000, 1, 1))
+                .not_valid_after(datetime.datetime(until, 1, 1))
+                .sign(key, hashes.SHA256()))
+        with open(os.path.join(d, f'dawgie.public.pem.{n}'), 'wb') as f:
+            f.write(cert.public_bytes(serialization.Encoding.PEM))
+    _CERT_DIRS[kind] = d
+    return d
 
 
 def _endpoints():
@@ -341,7 +407,7 @@ def _endpoint_cases():
     def gen():
         eps = sorted(_endpoints())
         for uri, meth, cert, clients, hook in itertools.product(
-            eps, METHODS, (0, 1), (0, 1), HOOKS
+            eps, METHODS, (0, 1), range(len(CLIENTS)), HOOKS
         ):
             yield {'uri': uri, 'method': meth, 'cert': cert,
                    'clients': clients, 'hook': hook}
@@ -367,6 +433,7 @@ def exec_endpoint(case):
     real_sanctioned = sec.sanctioned
     old_hook = dawgie.context.sanction_override
     old_certs = list(sec._certs)
+    old_mine, old_sys = dict(sec._myself), dict(sec._system)
     order = []
 
     target = real_fnc.__call__ if isinstance(real_fnc, basis.DeferContainer) \
@@ -392,7 +459,15 @@ def exec_endpoint(case):
     try:
         res._DynamicContent__fnc = spy
         sec.sanctioned = sanctioned
-        sec._certs[:] = [object()] if case['clients'] else []
+        kind = CLIENTS[case['clients']]
+        if kind.startswith('real'):
+            # guest certificates loaded the way the pipeline loads them
+            sec._tls_initialize(path=_cert_dir(kind))
+            if not sec._certs:
+                raise core.HarnessError('no certificate loaded')
+            out.label('clients-' + kind)
+        else:
+            sec._certs[:] = [object()] if case['clients'] else []
         dawgie.context.sanction_override = _hook_name(case['hook'])
         try:
             reply = getattr(res, 'render_' + case['method'])(req)
@@ -435,6 +510,10 @@ def exec_endpoint(case):
         res._DynamicContent__fnc = real_fnc
         sec.sanctioned = real_sanctioned
         sec._certs[:] = old_certs
+        sec._myself.clear()
+        sec._myself.update(old_mine)
+        sec._system.clear()
+        sec._system.update(old_sys)
         dawgie.context.sanction_override = old_hook
     return out
 
@@ -446,7 +525,9 @@ def parts(tier):
                   exhaustive=True,
                   enum_note='every registered DynamicContent endpoint x '
                   '{GET,POST,PUT,DELETE} x {no cert, cert} x {no clients, '
-                  'clients configured} x 11 access hooks'),
+                  'stand-in client list, real guest certificates loaded by '
+                  '_tls_initialize: valid / all expired / expired + valid} '
+                  'x 11 access hooks'),
         core.Part('static', exec_static, strategy=_static_case(),
                   cases=1600 if q else 60000, batch=200),
     ]
